@@ -101,6 +101,7 @@ prop("C07", [
 prop("C13", [
     S(RULES, "^TestC13Regress$", kind="plain"),
     S(RULES, "^TestC13HeaderWords$", kind="plain", timeout_t=3000),
+    S(RULES, "^TestC13ValueSweep$", kind="plain", timeout_t=3000),
     S(RULES, "^TestC13FieldCount$", kind="plain"),
     S(RULES, "^TestC13$", q=40000, t=1000000, shards=16, timeout_t=3000),
     S(RULES, "", kind="fuzz", fuzz="FuzzToCommandLine", fuzztime_t=100),
@@ -109,7 +110,7 @@ prop("C13", [
 ], ["typed-nil rule pointers are not Rule values and are not passed",
     "allocation bound: 1 MiB + 64 x input length per call, measured with runtime/metrics in a single-threaded section",
     "absence of panics is sampled, not proved; hang watchdog 30 s per case"],
-   nontrivial_classes=["kind-build", "kind-decode", "kind-parse", "passed-first-stage-build", "passed-first-stage-decode", "passed-first-stage-parse"])
+   nontrivial_classes=["kind-build", "kind-decode", "kind-parse", "value-sweep", "passed-first-stage-build", "passed-first-stage-decode", "passed-first-stage-parse"])
 
 prop("C14", [
     S(RULES, "^TestC14Regress$", kind="plain"),
@@ -148,7 +149,7 @@ prop("C17", [
 ], ["a synchronous request is never issued while ACKs are pending (the property does not say what happens)",
     "the return value of Close calls after the first is not asserted"],
    nontrivial_classes=["history-with-error-among-acks", "history-with-2-nowait-and-2-waits", "history-with-repeated-close",
-                       "history-close-after-setpid", "history-waitacks-after-close-with-pending", "history-with-getrules-then-traffic", "concurrent-close", "history-close-with-failing-send"])
+                       "history-close-after-setpid", "history-waitacks-after-close-with-pending", "history-close-after-calls-on-closed-client", "history-with-getrules-then-traffic", "concurrent-close", "history-close-with-failing-send"])
 
 prop("C18", [
     S(CLIENT, "^TestC18Regress$", kind="plain"),
